@@ -154,7 +154,8 @@ class S2:
 
                 s2_results[n, i] = -(self.ndim - 1) * np.pi * \
                     self.rhototal * s2_integral(gr_i, gr_bins, self.ndim)
-        self.s2_results = s2_results
+        # keep a private copy: the returned array belongs to the caller
+        self.s2_results = s2_results.copy()
         if outputfile:
             np.save(outputfile, s2_results)
         if savegr:
